@@ -1731,6 +1731,9 @@ func runC14(tier, replay string) int {
 	} else {
 		cases = c14Cases(r)
 	}
+	if replay == "" {
+		c14WipeEmptyNamespace(r)
+	}
 	outcomes := runBatchesRetry[c14Case, c14Result](r, "c14", cases, 3, 3*time.Minute)
 	for i, oc := range outcomes {
 		cs := cases[i]
